@@ -25,6 +25,7 @@ from ..types import Scalar, Optional, Tuple, Union, Tensor
 
 _rsqrt3 = 1 / math.sqrt(3)
 _r12 = 1 / 12
+_r24 = 1 / 24
 
 
 def _randn(size, dtype, device, seed):
@@ -89,11 +90,14 @@ def _davie_foster_approximation(W, H, h, levy_area_approximation, get_noise):
         noise = noise - noise.transpose(-1, -2)  # noise is skew symmetric of variance 2
         if levy_area_approximation == LEVY_AREA_APPROXIMATIONS.foster:
             # Foster's additional correction to Davie's approximation
+            # (The skew-symmetrised noise has variance 2, so std ** 2 is half of the prescribed conditional variance
+            # h^2 / 20 + (h / 5) (H_i^2 + H_j^2).)
             tenth_h = 0.1 * h
             H_squared = H ** 2
-            std = (tenth_h * (tenth_h + H_squared.unsqueeze(-1) + H_squared.unsqueeze(-2))).sqrt()
+            std = (tenth_h * (0.25 * h + H_squared.unsqueeze(-1) + H_squared.unsqueeze(-2))).sqrt()
         else:  # davie approximation
-            std = math.sqrt(_r12 * h ** 2)
+            # Prescribed conditional variance h^2 / 12; halved because the skew-symmetrised noise has variance 2.
+            std = math.sqrt(_r24 * h ** 2)
         a_tilde = std * noise
         A += a_tilde
         return A
